@@ -523,7 +523,7 @@ int main(int argc, char **argv) {
 		{"deflate_chunk_pairs", body_def_pairs, 24, 1, nullptr, "all pairs (input chunk, output chunk) from {0,1,2,7,8,9,15,16,17,31,32,33,255,256,257,328,329,big} incl. zero-length calls"},
 		{"deflate_history", body_def_history, 48, 12, nullptr, "generated histories: refill before drain, zero-length and 1-byte buffers, flush mode changed every call, late end_of_stream, fresh memory for every chunk; then finish; every call satisfies the counter invariants, finishing calls must make progress, output decodes to the concatenated input; non-trivial: >= 3 calls with a chunk boundary inside the data"},
 		{"deflate_plans", body_def_plans, 64, 70, nullptr, "inputs up to 150 KB x whole-stream call plans: chunkings of both sides (all, constant, random, boundary set, small/medium/rest), refill before drain, late end_of_stream, flush mode per call, chunk placed end- or start-flush at a guard page, and a caller that after every call that filled its output chunk offers only 1..64 bytes of the remaining input; counters, progress, decode; non-trivial: >= 3 calls"},
-		{"token_encoder_slicing", body_token_encoder, 16, 100, nullptr, "encode_deflate_icf{_base,_04,_06, dispatched under every cpu level} driven directly: generated tokens (rare long codes, bursts of far matches, packed literal pairs) and the library's own tables, output pieces of 16..3000 bytes each ending at a guard page; the bits gathered over all pieces == the plain C encoder's bits in one buffer, no write outside a piece, progress; non-trivial: >= 2 pieces"},
+		{"token_encoder_slicing", body_token_encoder, 16, 220, nullptr, "encode_deflate_icf{_base,_04,_06, dispatched under every cpu level} driven directly: generated tokens (rare long codes, bursts of far matches, packed literal pairs) and the library's own tables, output pieces of 16..3000 bytes each ending at a guard page; the bits gathered over all pieces == the plain C encoder's bits in one buffer, no write outside a piece, progress; non-trivial: >= 2 pieces"},
 		{"inflate_all_splits", body_inf_splits, 64, 3, nullptr, "one small valid stream (grammar/zlib/ISA-L made, raw/gzip with optional fields/zlib): every single split point of input and of output: same bytes, final state, status and crc as isal_inflate_stateless; non-trivial: header with optional fields or a match"},
 		{"inflate_chunk_pairs", body_inf_pairs, 64, 1, nullptr, "all (input chunk, output chunk) pairs from the boundary set incl. zero-length calls, compared with one-shot"},
 		{"inflate_history", body_inf_history, 96, 16, nullptr, "generated schedules (constant, random, boundary-set with empty calls) on valid and corrupted streams: valid -> identical to one-shot; invalid -> never reports completion; non-trivial: >= 3 calls"},
